@@ -282,8 +282,9 @@ class Report:
         body = {"property": self.pid, "tier": self.tier, "seed": self.seed, "keys": keys, "detail": detail}
         h = hashlib.sha1(json.dumps(body, sort_keys=True, default=str).encode()).hexdigest()[:12]
         path = os.path.join(d, h + ".json")
-        with open(path, "w") as fh:
-            json.dump(body, fh, indent=1, default=str)
+        if len(self.violations) < 25:      # every violation is counted, the first 25 get a replay file
+            with open(path, "w") as fh:
+                json.dump(body, fh, indent=1, default=str)
         self.violations.append((keys, path))
         return True
 
